@@ -322,6 +322,17 @@ def filteredOps (ops : List (List String)) (replies : List (PR × Nat)) : List (
     let rejected := match replies[i]? with | some (r, _) => isErrPR r | none => false
     if rejected && isWriteOp op then none else some op
 
+/-- `twin=filter1`: only the first rejected frame-writing call is removed (a refusal that makes a later call
+    be refused as well must not be filtered away together with it) -/
+def filteredOps1 (ops : List (List String)) (replies : List (PR × Nat)) : List (List String) :=
+  let idx := (List.range ops.length).find? fun i =>
+    match ops[i]?, replies[i]? with
+    | some op, some (r, _) => isErrPR r && isWriteOp op
+    | _, _ => false
+  match idx with
+  | none => ops
+  | some k => (List.zip (List.range ops.length) ops).filterMap fun (i, op) => if i == k then none else some op
+
 /-- the model's twin run (second muxer) for `twin=` cases -/
 def runPTwin (c : PCase) (first : PObs) : Option PObs :=
   match c.twin with
@@ -329,6 +340,7 @@ def runPTwin (c : PCase) (first : PObs) : Option PObs :=
   | "nometa" => some (runPWith c { c.cfg with md := none } c.ops)
   | "nofault" => some (runPWith { c with policy := {} } c.cfg c.ops)
   | "filter" => some (runPWith c c.cfg (filteredOps c.ops first.replies))
+  | "filter1" => some (runPWith c c.cfg (filteredOps1 c.ops first.replies))
   | _ => none
 
 /-- parse "obs || obs2" -/
